@@ -22,14 +22,14 @@ def _closed(case):
     X = rs.permutation(xs) * 1.0
     n = case['n']
     probs = []
-    for shift, scale in ((0.0, 1.0), (1000.0, 0.25)):          # the identities are affine-equivariant; also away from the origin
+    for shift, scale in ((0.0, 1.0), (1000.0, 0.25), (1.7e9, 64.0)):       # also far from the origin with a tiny relative spread          # the identities are affine-equivariant; also away from the origin
         Y = X * scale + shift
         g = GaussianUnivariate()
         g.fit(Y.copy())
         p = g.to_dict()
-        if abs(n * (float(p['loc']) - shift) / scale - case['s1']) > 1e-9 * max(1, abs(case['s1'])) * (1 + shift):
+        if abs(n * (float(p['loc']) - shift) / scale - case['s1']) > 1e-9 * max(1, abs(case['s1'])) * (1 + shift / scale):
             probs.append(('gaussian-loc-is-not-the-sample-mean', '%r vs sum %d / n %d' % (p['loc'], case['s1'], n)))
-        if abs((n * float(p['scale']) / scale) ** 2 - case['varnum']) > 1e-9 * max(1, case['varnum']) * (1 + shift):
+        if abs((n * float(p['scale']) / scale) ** 2 - case['varnum']) > 1e-9 * max(1, case['varnum']) * (1 + shift / scale):
             probs.append(('gaussian-scale-is-not-the-population-std', 'n^2 scale^2 = %r vs %d' % ((n * float(p['scale']) / scale) ** 2, case['varnum'])))
         u = UniformUnivariate()
         u.fit(Y.copy())
